@@ -6,7 +6,33 @@ From AHK Require Import Lib.Res Lib.ByteStr Model.Sha512 Model.Srp.
 Import ListNotations.
 Local Open Scope N_scope.
 
-Definition bs (p : N * N) : bytes := bytes_of (fst p) (snd p).
+(* input decoding for the generated case files: the same byte string as
+   [bytes_of len n] = [be_enc len n], computed in one pass over the bits of [n]
+   (be_enc divides by 256 per byte, quadratic on 384-byte inputs).  Harness glue,
+   not used by any theorem; Proofs/SrpBig.v checks it against [bytes_of] on samples. *)
+Fixpoint pos_bits (p : positive) : list bool :=
+  match p with
+  | xH => [true]
+  | xO q => false :: pos_bits q
+  | xI q => true :: pos_bits q
+  end.
+Definition bitw (b : bool) (w : N) : N := if b then w else 0.
+Fixpoint pack8 (l : list bool) : list N :=
+  match l with
+  | b0 :: b1 :: b2 :: b3 :: b4 :: b5 :: b6 :: b7 :: r =>
+      (bitw b0 1 + bitw b1 2 + bitw b2 4 + bitw b3 8 + bitw b4 16 + bitw b5 32 + bitw b6 64 + bitw b7 128)
+        :: pack8 r
+  | [] => []
+  | _ => [fold_right (fun b acc => bitw b 1 + 2 * acc) 0 l]
+  end.
+Definition le_bytes (n : N) : list N :=
+  match n with N0 => [] | Npos p => pack8 (pos_bits p) end.
+Definition bytes_of_fast (len n : N) : bytes :=
+  let le := le_bytes n in
+  let k := N.to_nat len in
+  rev (firstn k (le ++ repeat 0 (k - length le))).
+
+Definition bs (p : N * N) : bytes := bytes_of_fast (fst p) (snd p).
 Definition b2n (b : bool) : N := if b then 1 else 0.
 
 Definition sha_case (m : N * N) : bytes := sha512 (bs m).
